@@ -469,7 +469,34 @@ func runC14(c *Ctx) {
 				}
 			}
 		}
-		c.judge(len(wPfx) == 2 && strings.Join(wPfx, "|") == strings.Join(rPfx, "|"), "R-PREFIX-TABLES", "unified:file header prefixes", unified.Pos(), fmt.Sprintf("%q on both sides", wPfx), fmt.Sprintf("the writer starts the file header lines with %q, the reader cuts %q", wPfx, rPfx))
+		if hsides, _, _, okH := headerAgreement(P); okH {
+			// by data flow: the header call for a side is handed the prefix the reader cuts for that side (and not the other side's)
+			var probs []string
+			for i, hs := range hsides {
+				other := hsides[1-i]
+				has := func(set []string, s string) bool {
+					for _, x := range set {
+						if x == s {
+							return true
+						}
+					}
+					return false
+				}
+				for _, rp := range hs.readerPrefixes {
+					if !has(hs.writerConsts, rp) {
+						probs = append(probs, fmt.Sprintf("the reader cuts %q before parsing .%s, but the call that writes the .%s header line is handed %q", rp, hs.name, hs.name, hs.writerConsts))
+					}
+				}
+				for _, op := range other.readerPrefixes {
+					if has(hs.writerConsts, op) && !has(hs.readerPrefixes, op) {
+						probs = append(probs, fmt.Sprintf("the .%s header line is written with %q, which the reader takes for the .%s line", hs.name, op, other.name))
+					}
+				}
+			}
+			c.judge(len(probs) == 0, "R-PREFIX-TABLES", "unified:file header prefixes", unified.Pos(), "each side's header call carries the prefix the reader cuts for that side", strings.Join(probs, "; "))
+		} else {
+			c.judge(len(wPfx) == 2 && strings.Join(wPfx, "|") == strings.Join(rPfx, "|"), "R-PREFIX-TABLES", "unified:file header prefixes", unified.Pos(), fmt.Sprintf("%q on both sides", wPfx), fmt.Sprintf("the writer starts the file header lines with %q, the reader cuts %q", wPfx, rPfx))
+		}
 		var wSep, rSep []string
 		for _, call := range callsIn(ffh, "Fprint") {
 			if len(call.Args) >= 3 {
@@ -743,7 +770,27 @@ func runC14(c *Ctx) {
 	}
 
 	// ---------------- R-TIMEFMT
-	{
+	if hsides, wl, _, okH := headerAgreement(P); okH {
+		// by data flow: every layout that can reach the writers' Time.Format is among the layouts the reader
+		// tries for that header line
+		for _, hs := range hsides {
+			var missing []string
+			for _, w := range wl {
+				found := false
+				for _, r := range hs.readerLayouts {
+					if r == w {
+						found = true
+					}
+				}
+				if !found {
+					missing = append(missing, w)
+				}
+			}
+			side := strings.ToLower(hs.name)
+			c.judge(len(missing) == 0, "R-TIMEFMT", hs.readerFn+":"+side+" timestamp", hs.readerPos, "parsed with the writers' default layout",
+				fmt.Sprintf("the %s header's timestamp is parsed with %q, but the writers' default layout is %q: a default-format timestamp does not survive a round trip", side, hs.readerLayouts, missing))
+		}
+	} else {
 		constObj := func(e ast.Expr) types.Object {
 			if id, ok := e.(*ast.Ident); ok {
 				return info.Uses[id]
